@@ -166,10 +166,80 @@ func claimed(b []byte) uint64 {
 	return n
 }
 
-// unlimitedOK: an unlimited Stream over an opaque reader is documented as unprotected against huge
-// top-level sizes ("Decode does not set an input limit for all readers and may be vulnerable to panics
-// cause by huge value sizes"), so that path is only fed inputs whose first header announces a modest size.
-func unlimitedOK(b []byte) bool { return claimed(b) <= uint64(len(b))+4096 }
+// lenientHeader reads a header without any canonical check; ok=false if its bytes are not all there.
+func lenientHeader(b []byte) (list bool, hl int, pl uint64, ok bool) {
+	if len(b) == 0 {
+		return false, 0, 0, false
+	}
+	t := b[0]
+	k := 0
+	switch {
+	case t < 0x80:
+		return false, 0, 1, true
+	case t <= 0xb7:
+		return false, 1, uint64(t - 0x80), true
+	case t <= 0xbf:
+		k = int(t - 0xb7)
+	case t <= 0xf7:
+		return true, 1, uint64(t - 0xc0), true
+	default:
+		list, k = true, int(t-0xf7)
+	}
+	if len(b)-1 < k {
+		return list, 0, 0, false
+	}
+	for i := 1; i <= k; i++ {
+		pl = pl<<8 | uint64(b[i])
+	}
+	return list, 1 + k, pl, true
+}
+
+// elemOverrun reports whether, reading the structure leniently as far as the bytes go, some element
+// announces more bytes (header included) than its enclosing list has left. `left` is what the enclosing
+// list announced and has not yet been used up.
+func elemOverrun(b []byte, left uint64, top bool) bool {
+	for len(b) > 0 {
+		list, hl, pl, ok := lenientHeader(b)
+		if !ok {
+			return false
+		}
+		total := uint64(hl) + pl
+		if total < pl || (!top && total > left) {
+			return !top
+		}
+		if list {
+			end := uint64(len(b))
+			if total < end {
+				end = total
+			}
+			if elemOverrun(b[hl:end], pl, false) {
+				return true
+			}
+		}
+		if top {
+			return false // only the first value is decoded
+		}
+		left -= total
+		if total >= uint64(len(b)) {
+			return false
+		}
+		b = b[total:]
+	}
+	return false
+}
+
+// unlimitedOK: which inputs the Stream without any input limit (opaque reader) is fed.
+//  * An unlimited Stream is documented as unprotected against huge top-level sizes ("Decode does not set an
+//    input limit for all readers and may be vulnerable to panics cause by huge value sizes"), so the first
+//    header must announce a modest size.
+//  * Finding "elem-larger-than-list-not-rejected:Stream.Kind" (fixed case 6): a list element that overruns its
+//    enclosing list by no more than its own header passes Stream.Kind, and for a list element the enclosing
+//    list's remaining size then wraps around to ~2^64: on an unlimited Stream later elements are no longer
+//    bounded by anything and the process dies in make() or allocates gigabytes. That is demonstrated once, with
+//    modest sizes, in the fixed corpus; the random groups keep inputs with an overrunning element away from
+//    this one path (the four limited paths see them all), so that the generic panic/fatal/alloc keys stay
+//    meaningful for everything else.
+func unlimitedOK(b []byte) bool { return claimed(b) <= uint64(len(b))+4096 && !elemOverrun(b, 0, true) }
 
 const (
 	pDecodeBytes = iota
